@@ -111,7 +111,7 @@ def exhausted (cfg : Cfg) (k : PrimKind) (last : Fault) : Exc :=
 
 /-- what a cut Type 3 answer does in `send_cmd_recv_rsp` (`idm`: the command carries the IDm) -/
 def shortExc (cfg : Cfg) (idm : Bool) (k : Nat) : Exc :=
-  if cfg.fixF32 then .tagCmd 1
+  if cfg.fixF32 then (if !idm && k ≥ 2 then .tagCmd 4 else .tagCmd 1)   -- polling: length byte is right, DATA_SIZE_ERROR
   else match k with
     | 0 => .index                              -- rsp[0]
     | 1 => .index                              -- rsp[1]
@@ -267,16 +267,15 @@ def chain (cfg : Cfg) (p : Prim) (ct : Catch) (pol : Pol) : List Step → (Unit 
   | [], fin => fin ()
   | s :: ss, fin =>
     let next := fun _ => chain cfg p ct pol ss fin
-    if s.cmd.tok = "s2" then
+    if s.cmd.tok = "s2" ∧ p.kind = .t12 then
       -- second part of the Type 2 SECTOR SELECT (tt2.py:546-553): one attempt, silence is the
       -- acknowledge, an answer means "no such sector", any other error trips the `assert`;
       -- what sector_select raises itself is subject to the enclosing policy
       let raised : Unit → Prog := match pol with
         | .raise => fun _ => .crash (.tagCmd 1)
         | _ => polProg pol next
-      .call ⟨.t12, 1, true⟩ s.cmd s.ans .tagErr raised
-        (fun _ => .caseErr next (fun _ => if cfg.fixSect then polProg pol next () else .crash .assertion)
-                    (fun _ => .crash .assertion))
+      let other : Unit → Prog := fun _ => if cfg.fixSect then polProg pol next () else .crash .assertion
+      .call ⟨.t12, 1, true⟩ s.cmd s.ans .tagErr raised (fun _ => .caseErr next other other)
     else
       .call p s.cmd s.ans (match pol with | .raise => .nothing | _ => ct) next (polProg pol next)
 
